@@ -17,19 +17,26 @@ RULE = ('(a) Utility::Match against the Gallina glob matcher: ALL patterns of le
         'missing/invalid/foreign type, names containing "!" or differing in case, default provider (fast path) and counting provider), and the '
         'real handlers through HttpHandler::ProcessRequest (GET/POST/DELETE /v1/objects/<type>[/<name>], POST /v1/actions/reschedule-check, '
         'joins); family nav-order: targets with a null reference evaluated right after targets with a non-null one, in inventory '
-        'order, plural-name list order and fast-path order. non-trivial = the case contains a query that returned at least one object or was refused; distinct = distinct script text')
+        'order, plural-name list order and fast-path order; family env-separation: the permission filter mentions a global constant (string, array, NodeName; '
+        'declared per case through ScriptGlobal), the request carries filter_vars of that very name with a value that would flip the verdict (and names of navigation fields, this, globals), '
+        'the user filter is on the generic path (match / regex / len / in) or on the targeted fast path, through GetFilterTargets with every handler\'s QueryDescription and the HTTP handlers; '
+        'family join-same-name: Hosts named like CheckCommand / EventCommand / TimePeriod / Endpoint / Zone objects of the fixture, permissions differing per joined type, several joins per request '
+        'in every order, hosts and services as primary type, every serialised join observed; 45% of the mixed cases also declare globals and use free-name / function-call atoms. non-trivial = the case contains a query that returned at least one object or was refused; distinct = distinct script text')
 TRUSTED = ['model: coq/Perm/PmModel.v (transcription of FilterUtility::HasPermission/CheckPermission/EvaluateFilter/GetFilterTargets, '
            'ApplyRule::GetTargetHosts/GetTargetServices, the filter_vars shadowing guard, the namespace resets of the permission frame, the joins loop of ObjectQueryHandler; glob matcher proved equivalent to a declarative '
            'spec and compared exhaustively with Utility::Match on short strings)',
-           'filters are the boolean DSL fragment {sc.name == "..", sc.vars.k == "..", sc.name == filter_var, &&, ||, !, true, false}, sc in '
-           '{host, service, obj, check_command, check_period, event_command, command_endpoint}, with '
-           'three-valued evaluation (true/false/ScriptError); the rest of the DSL is C15',
+           'filters are the DSL fragment {sc.name == "..", sc.vars.k == "..", sc.name == x, sc.vars.k == x, sc.name in x, match(x, sc.name), match("p", sc.name), len(sc.name) == n, '
+           'regex("^s$", sc.name), &&, ||, !, true, false}, sc in {host, service, obj, check_command, check_period, event_command, command_endpoint}, x a free name (global constant or '
+           'filter variable, string or array of strings), with three-valued evaluation (true/false/ScriptError); the rest of the DSL is C15',
+           'environment of a filter frame: free names of the permission filter resolve in the global constants only, those of the user filter in filter_vars then the globals '
+           '(tied by the source fact f_pm_perm_ns_private and by the env-separation family)',
            'source facts re-extracted each run: permission string and CheckPermission/GetFilterTargets call of every registered HTTP handler, '
            'navigation fields of Host/Service from the .ti files, structure of EvaluateFilter\'s binding loop (coq/Facts/Facts_c18.v)',
            'harness/ops_pm.cpp: exception classes (ScriptError / invalid_argument), object sets and HTTP status are observed; no log text']
 ASSUMPTIONS = ['ASCII permission strings and object names (String::ToLower and tolower agree on ASCII)',
                'object names are unique per type (ConfigObject registry) and contain no "!" (enforced by Icinga name validation)',
-               'no empty-string values in filters (Icinga treats "" as Empty in ==)', 'filter variables are not named obj/host/service',
+               'no empty-string values in filters (Icinga treats "" as Empty in ==)', 'filters do not mention the names EvaluateFilter binds (obj, host, service, navigation fields) as FREE names; as filter_vars KEYS those names are generated',
+               'a free name keeps its kind (string / array of strings) in globals and filter_vars; regex literals are [A-Za-z0-9-]+',
                'the used_by meta list and get_object() inside user filters are outside the statement (DESIGN.md C18)']
 
 
@@ -914,6 +921,21 @@ def extra_stats(cases, impl):
             except Exception:
                 c['nav_stats_errors'] += 1
     for cs in cases:
+        pfree = set()
+        for l in cs['lines']:
+            if l.startswith('pm_user'):
+                for e in l.split('=', 1)[1].split(';'):
+                    if '@' in e:
+                        for tok in e.split('@', 1)[1].split(','):
+                            if tok[:1] in 'cCwiM' and ':' in tok:
+                                pfree.add(tok.split(':')[-1])
+            elif l.startswith(('pm_q', 'pm_http')) and pfree and ' fv=' in l:
+                keys = set(x.split(':')[0] for x in l.split(' fv=', 1)[1].split()[0].split(','))
+                if keys & pfree:
+                    c['requests_whose_filter_vars_name_a_free_name_of_the_permission_filter'] += 1
+                    if any(t[:1] in 'mMlri' for t in (l.split(' filter=', 1)[1].split()[0].split(',') if ' filter=' in l else [])):
+                        c['...of_those_with_user_filter_on_generic_path'] += 1
+    for cs in cases:
         for l in cs['lines']:
             op = l.split()[0]
             if op == 'pm_q':
@@ -922,6 +944,11 @@ def extra_stats(cases, impl):
                 c['q_shape:' + shape] += 1
             elif op == 'pm_http':
                 c['http:' + dict(p.split('=', 1) for p in l.split()[1:] if '=' in p).get('kind', '?')] += 1
+                kv = dict(p.split('=', 1) for p in l.split()[1:] if '=' in p)
+                if 'jsel' in kv or kv.get('joins'):
+                    c['http_join_requests'] += 1
+            elif op == 'pm_glob':
+                c['globals_declared'] += 1
             elif op == 'pm_user':
                 n = 0 if l.endswith(('=-', '=none')) else l.count(';') + 1
                 c['user_entries:%d' % n] += 1
